@@ -43,7 +43,7 @@ TRUSTED_EXTRA = ['harness/gen_oal_action.py (program generator, base model)',
                  'xtuml.consistency_check.check_link_integrity / check_uniqueness_constraint (C11 is about them)']
 CHUNK = 400
 CASE_TIMEOUT_S = 30
-BUDGET_S = {'quick': 75, 'thorough': 780}
+BUDGET_S = {'quick': 60, 'thorough': 780}
 
 _rig = None
 _links = None
@@ -123,7 +123,7 @@ def _violations(m):
 
 
 def generate(ctx):
-    return P5.generate(ctx)
+    return P5.generate(ctx, n_quick=2000)
 
 
 text_of = P5.text_of
@@ -385,7 +385,19 @@ class Typer(object):
                 self.block(sb[1])
         elif head == 'InvocationStatementNode':
             self.expr(b[1])
+        elif head in ('GenerateClassEventNode', 'GenerateCreatorEventNode', 'GenerateInstanceEventNode'):
+            self.event_spec(b[1])           # the receiver (class or variable) is named, not evaluated
+        elif head in ('CreateClassEventNode', 'CreateCreatorEventNode', 'CreateInstanceEventNode'):
+            if self.lookup(b[1]) is None:
+                self.declare(b[1], ('trn', 'inst<Event>'))
+            self.event_spec(b[2])
+        elif head == 'GeneratePreexistingNode':
+            self.expr(b[1])
         self.cur_stmt = outer
+
+    def event_spec(self, x):
+        _, b = _unwrap(x)                   # EventSpecNode identifier meaning event_data
+        self.plist(b[3])
 
 
 JUDGED = ('literal', 'boolean-operator', 'cardinality', 'variable', 'attribute', 'parameter')
@@ -409,7 +421,7 @@ def run_impl(case):
     tree = rig.parse(text)
     enc = oal_sexp.encode(tree, positions=True)
     try:
-        m, h, _ = rig.translate(case['home'], text, case.get('via_model', False))
+        m, h, _ = rig.translate(case['home'], text, case.get('via_model', False), regenerate=False)
     except G.OutOfDomain as e:
         return {'obs': [Sym('out-of-domain'), str(e)], 'd_fail': [], 'nontrivial': False, 'stats': {'out_of_domain': 1}}
     fails = []
@@ -603,6 +615,8 @@ def _idx(ids, x):
 
 
 def model_line(case):
+    if case.get('events'):
+        return None         # event statements are outside the Lean model; the direct predicate judges them
     tree = _rig.parse(text_of(case))
     return dumps([Sym('c06'), G.ctx_sexp(case['home']), oal_sexp.encode(tree)])
 
